@@ -26,7 +26,7 @@ for d in sorted(glob.glob(os.path.join(ROOT, "seeded", "*", ""))):
             res.append(f"{c}: VIOLATION no-failing-input-found ({'; '.join(v.get('signatures', [])[:1])[:90]})")
     ok = conf.get("applies") and conf.get("builds") and conf.get("demo_orig_rc") == 0 and conf.get("demo_changed_rc") not in (0, None)
     rows.append((name, files, summ, "yes (base %s)" % conf.get("base") if ok else "not confirmed", "<br>".join(res) or "not run"))
-out = ["Five waves of fresh sub-agents (10 agents per wave, two properties each; every wave was told which sites and mechanisms",
+out = ["Six waves of fresh sub-agents (10 agents per wave, two properties each; every wave was told which sites and mechanisms",
        "the earlier ones had used and asked for different ones; `*-rev-<commit>` entries are regression seeds written from",
        "repaired defects: the reverse of the fix). `tools/seedtest.py` applies each change to a scratch worktree of",
        "`/repo` HEAD, confirms it (builds; `demo.sh` exits 0 on the unchanged and non-zero on the changed binary; 430 tests pass)",
